@@ -179,8 +179,15 @@ where
 {
     fn format_response_data(&self, formatter: &mut dyn Formatter) -> Result<()> {
         let mnemonic = self.mnemonic();
-        let short_form = mnemonic.split(|c| !c.is_ascii_uppercase()).next().unwrap();
-        formatter.push_str(short_form)
+        let short_form = self.short_form();
+        formatter.push_str(short_form)?;
+        // A numeric suffix after the lowercase tail is not part of the short form but selects the variant
+        let suffix = mnemonic.iter().rev().take_while(|c| c.is_ascii_digit()).count();
+        if short_form.len() + suffix <= mnemonic.len() {
+            formatter.push_str(&mnemonic[mnemonic.len() - suffix..])
+        } else {
+            Ok(())
+        }
     }
 }
 
